@@ -49,6 +49,9 @@ func main() {
 	os.RemoveAll(root)
 	defer os.RemoveAll(root)
 	plz := hist.PrivatePlz(plzPath(), filepath.Join(root, "bin"))
+	// stand-in for the external sandbox tool (please_sandbox): runs the command it is given with the environment it received
+	hist.FakeSandboxTool = filepath.Join(root, "bin", "fake_sandbox")
+	os.WriteFile(hist.FakeSandboxTool, []byte("#!/bin/sh\nexec \"$@\"\n"), 0o755)
 
 	type run struct {
 		fam   hist.EnvFam
@@ -57,14 +60,14 @@ func main() {
 	var runs []run
 	if r.Quick() {
 		runs = []run{
-			{hist.EnvFam{Cfg: "both", Vals: []string{"2", "-"}, WithNoop: true}, 2},
-			{hist.EnvFam{Cfg: "none", Vals: []string{"2"}, WithRm: true}, 2},
+			{hist.EnvFam{Cfg: "both", Vals: []string{"2", "-"}, WithNoop: true, Sandbox: true}, 2},
+			{hist.EnvFam{Cfg: "none", Vals: []string{"2"}, WithRm: true, Sandbox: true}, 2},
 		}
 	} else {
 		runs = []run{
-			{hist.EnvFam{Cfg: "both", Vals: []string{"2", "-"}, WithNoop: true, WithRm: true}, 3},
-			{hist.EnvFam{Cfg: "unsafe", Vals: []string{"2", "-", "e"}, WithPath: true, WithNoop: true}, 2},
-			{hist.EnvFam{Cfg: "none", Vals: []string{"2", "-", "e"}, WithPath: true, WithRm: true}, 2},
+			{hist.EnvFam{Cfg: "both", Vals: []string{"2", "-"}, WithNoop: true, WithRm: true, Sandbox: true}, 3},
+			{hist.EnvFam{Cfg: "unsafe", Vals: []string{"2", "-", "e"}, WithPath: true, WithNoop: true, Sandbox: true}, 2},
+			{hist.EnvFam{Cfg: "none", Vals: []string{"2", "-", "e"}, WithPath: true, WithRm: true, Sandbox: true}, 2},
 			{hist.EnvFam{Cfg: "none", Boundary: true, WithNoop: true}, 2},
 		}
 	}
@@ -108,6 +111,7 @@ func main() {
 		"target-level pass_env reads os.Getenv, so an unset and an empty FOO are the same value for //p:f (the command sees FOO= in both cases): no rebuild is demanded between them",
 		"entitled environment of a target = what a fresh build prints when the caller sets ONLY the variables passed to that target (differential reference, scratch paths normalised); an unsafe variable shows its value at the target's last execution",
 		"no cache directory is configured ([cache] dir blank)",
+		"//p:s is a sandboxed target run through an external sandbox tool ([sandbox] tool = a stand-in that executes its arguments with the environment it was given): what the real please_sandbox does to the environment afterwards is outside plz",
 	}
 	r.Finish(lib.Coverage{
 		Evaluations:        total.Transitions,
@@ -298,7 +302,7 @@ func makeJudge(e *hist.Engine, fam hist.EnvFam, memo *hist.Memo) hist.Judge {
 }
 
 func replay(r *lib.Run, plz, root string, w witness) {
-	fam := hist.EnvFam{Cfg: w.Cfg, Boundary: w.Boundary, Vals: []string{"2", "-", "e"}, WithPath: true, WithNoop: true, WithRm: true}
+	fam := hist.EnvFam{Cfg: w.Cfg, Boundary: w.Boundary, Vals: []string{"2", "-", "e"}, WithPath: true, WithNoop: true, WithRm: true, Sandbox: !w.Boundary}
 	e := hist.NewEngine(plz, filepath.Join(root, "replay"), fam)
 	visit := makeVisit(r, e, fam, hist.NewMemo())
 	var st *hist.State
